@@ -127,6 +127,15 @@ def lines_for(tree, rng):
                 if o.get("shadows"):
                     out.append((names + ["--" + o["long"]] + fill, "path+option-named-like-subcommand-" + tag))
                     out.append((names + fill + ["--" + o["long"]], "path+args+option-named-like-subcommand-" + tag))
+            if len(p) >= 2:
+                # an option of an ancestor, in '--name=value' / '--flag' form, before the last path component:
+                # the walk stops there, the rest of the path are plain arguments of the ancestor
+                for anc in p[:-1]:
+                    for o in anc["opts"]:
+                        spelled = "--" + o["long"] if o["mode"] == "flag" else "--%s=ov" % o["long"]
+                        k = p.index(anc) + 1
+                        out.append((names[:k] + [spelled] + names[k:] + fill, "option-inside-path-" + tag))
+                        break
             if not use_alias:
                 for i in range(len(names)):
                     out.append((names[:i] + ["bogus"] + names[i:], "wrong@%d" % i))
@@ -147,8 +156,9 @@ def lines_for(tree, rng):
 
 def judge_tree(sh, env, tree, rng, record_tree=True):
     log = T.HandlerLog()
+    env.built = getattr(env, "built", 0) + 1
     try:
-        app, cfg = T.build_app(tree, env.api, log, io_factory=env.io_factory)
+        app, cfg = T.build_app(tree, env.api, log, io_factory=env.io_factory, share_resolver=env.built % 2 == 0)
     except Exception as e:
         sh.violate("tree-build", {"tree": tree}, "valid generated tree rejected: %r" % (e,))
         return
